@@ -510,6 +510,19 @@ func (s *vpCli) writeSettingsMCS(c *vpCliConn, v uint32) {
 	}
 }
 
+// writeSettingsOther writes a SETTINGS frame that does not contain
+// MAX_CONCURRENT_STREAMS (an omitted setting keeps its value, RFC 9113 6.5.3): the
+// monitor's limit in force is unchanged by it.
+func (s *vpCli) writeSettingsOther(c *vpCliConn, set ...Setting) {
+	if !c.usable() {
+		return
+	}
+	c.unacked = append(c.unacked, -1)
+	if err := c.tc.fr.WriteSettings(set...); err != nil {
+		c.werr = true
+	}
+}
+
 // respond writes response HEADERS (status 200) on st, with END_STREAM if end.
 func (s *vpCli) respond(st *vpCliStream, end bool) {
 	c := st.conn
